@@ -372,6 +372,10 @@ class ValGen:
             return {fn: self.same_shape(ft, mv[fn], None if caps is None else caps[fn]) for fn, ft in t["f"]}
         if k == "ar":
             return AVal(mv.shape, {i: self.same_shape(t["it"], v, None if caps is None else caps.items[i]) for i, v in mv.items.items()})
+        renull = getattr(self, "renull", 0.0)
+        if k in ("ref", "ur") and renull and self.rng.random() < renull:
+            # (only where references are re-bound by the assignment anyway) another null pattern / member
+            return None if self.rng.random() < 0.5 else self.value(t)
         if k == "ref":
             return None if mv is None else self.same_shape(t["to"], mv, caps)
         if k == "ur":
